@@ -23,6 +23,19 @@ class Program:
             for a in c['adts']:
                 self.adts[a['path']] = a
         self._edges = None
+        # named constants / statics (their initialisers are bodies too): a body that mentions one depends on whatever the
+        # initialiser refers to — tables of function pointers, closures stored in a const
+        self.const_by_id = {b['id']: k for k, b in self.bodies.items() if b.get('kind') == 'const'}
+
+    def consts_used(self, b):
+        out = []
+        for c in b.get('consts', []) or []:
+            t = str(c.get('text', ''))
+            if t.startswith('const '):
+                k = self.const_by_id.get(t[6:].strip())
+                if k is not None and k != b.get('key') and k not in out:
+                    out.append(k)
+        return out
 
     def targets_of_call(self, c):
         """Resolved local targets of one call record."""
@@ -49,6 +62,8 @@ class Program:
                 for c in b['calls']:
                     for t in self.targets_of_call(c):
                         e[k].add(t)
+                for ck in self.consts_used(b):
+                    e[k].add(ck)
                 for r in b['refs']:
                     rk = r.get('key')
                     if rk in self.bodies:
@@ -223,6 +238,8 @@ class CtxReach:
         for c in b['calls']:
             a0 = c['arg_tys'][0] if c.get('arg_tys') else None
             out.extend(handle(c.get('ckey'), c['kind'], c.get('trait_item'), a0))
+        for ck in self.p.consts_used(b):
+            out.append((ck, None))
         for r in b['refs']:
             if r['kind'] == 'closure':
                 if r['key'] in self.p.bodies:
